@@ -168,7 +168,8 @@ static const char* trapName(Trap t) {
     default: return "AllocationFailed"; } }
 static char hostlog[1 << 16]; static size_t hostlen; static int hostn;
 static void* insts[16]; static int ninsts;
-static int instIndex(void* p) { int k; for (k = 0; k < ninsts; k++) if (insts[k] == p) return k + 1; return 0; }
+/* the most recent instance living at p (storage may be reused after an instance was freed) */
+static int instIndex(void* p) { int k; for (k = ninsts - 1; k >= 0; k--) if (insts[k] == p) return k + 1; return 0; }
 static void pbytes(char* buf, size_t* len, const void* p, int n) {
   int k; const unsigned char* b = (const unsigned char*)p;
   *len += (size_t)sprintf(buf + *len, "[");
@@ -274,7 +275,7 @@ def gen_harness(items, prefix):
                 gi += 1
         o.append("  return NULL; }")
         o.append("static void run_%s(void) {" % mod)
-        o.append("  static %sInstance I[8]; int ni = 0; (void)ni; nmems = 0; ntables = 0; ngcells = 0; ninsts = 0; memset(tables, 0, sizeof tables); memset(mems, 0, sizeof mems);" % mod)
+        o.append("  static %sInstance I[8]; static %sInstance* P[8]; static int memOf[8]; int ni = 0; (void)ni; (void)memOf; nmems = 0; ntables = 0; ngcells = 0; ninsts = 0; memset(tables, 0, sizeof tables); memset(mems, 0, sizeof mems);" % (mod, mod))
         exports = {e["name"]: e for e in m.get("exports", [])}
         memexp = [e["name"] for e in m.get("exports", []) if e["kind"] == "memory"]
         for k, op in enumerate(it["script"], start=1):
@@ -295,13 +296,15 @@ def gen_harness(items, prefix):
                 o.append("  %s_bmem = %d; %s_btab = %d;" % (mod, b["mem"], mod, b["table"]))
                 for j, a in enumerate(b["globals"]):
                     o.append("  %s_bglob[%d] = %d;" % (mod, j, a))
-                o.append("  insts[ninsts++] = &I[ni];")
-                o.append("  if (setjmp(jb) == 0) { %sInstantiate(&I[ni], %s_resolve); fprintf(out, \",\\\"status\\\":\\\"%s\\\"\"); }" % (
+                # "reuse": k = instantiate into the storage of instance k (which the script has freed before)
+                o.append("  P[ni] = %s; memOf[ni] = -1;" % ("P[%d]" % (op["reuse"] - 1) if op.get("reuse") else "&I[ni]"))
+                o.append("  insts[ninsts++] = P[ni];")
+                o.append("  if (setjmp(jb) == 0) { %sInstantiate(P[ni], %s_resolve); fprintf(out, \",\\\"status\\\":\\\"%s\\\"\"); }" % (
                     mod, mod, "returned" if m.get("start", -1) not in (None, -1) else "done"))
                 o.append('  else fprintf(out, ",\\"status\\":\\"trapped\\",\\"trap\\":\\"%s\\"", trapName(trapCode));')
                 if m.get("memory") and m["memory"].get("present", True):
                     if memexp:
-                        o.append("  mems[nmems++] = %s_%s(&I[ni]);" % (mod, mangle(memexp[0])))
+                        o.append("  memOf[ni] = nmems; mems[nmems++] = %s_%s(P[ni]);" % (mod, mangle(memexp[0])))
                     else:
                         o.append("  mems[nmems++] = NULL;")
                 if m.get("table") and m["table"].get("present", True):
@@ -316,7 +319,7 @@ def gen_harness(items, prefix):
                 tyi = func_imports(m)[fi]["type"] if fi < nfi else m["funcs"][fi - nfi]["type"]
                 ty = m["types"][tyi]
                 args = "".join(",%s" % c_bytes_literal(a["t"], a["b"]) for a in op["args"])
-                call = "%s_%s(&I[%d]%s)" % (mod, mangle(op["export"]), op["inst"] - 1, args)
+                call = "%s_%s(P[%d]%s)" % (mod, mangle(op["export"]), op["inst"] - 1, args)
                 o.append("  if (setjmp(jb) == 0) {")
                 if ty["r"]:
                     t = ty["r"][0]
@@ -326,6 +329,10 @@ def gen_harness(items, prefix):
                     o.append("    %s;" % call)
                     o.append('    fprintf(out, ",\\"status\\":\\"returned\\",\\"res\\":[]");')
                 o.append('  } else fprintf(out, ",\\"status\\":\\"trapped\\",\\"trap\\":\\"%s\\"", trapName(trapCode));')
+            elif op["op"] == "free":
+                # the instance is released; its memory (if it defined one) is no longer observable
+                o.append("  %sFreeInstance(P[%d]); if (memOf[%d] >= 0) mems[memOf[%d]] = NULL;" % (mod, op["inst"] - 1, op["inst"] - 1, op["inst"] - 1))
+                o.append('  fprintf(out, ",\\"status\\":\\"done\\"");')
             else:
                 raise MachineryError("unknown script op " + op["op"])
             o.append("  opEnd();")
@@ -428,7 +435,8 @@ def actual(items, w2c2, workdir, cc="gcc", cflags=("-O1",), batch=24, w2c2_opts=
         if rc != 0:
             problems.append(("compile", [it["id"] for it in good], err[-3000:]))
             return []
-        rc, out, err = run([exe], timeout=run_timeout, cwd=d)
+        # the harness does not release what it allocates as the embedder (host memories and tables): no leak reports
+        rc, out, err = run([exe], timeout=run_timeout, cwd=d, env={"ASAN_OPTIONS": "detect_leaks=0"})
         recs = []
         for l in out.splitlines():
             try:
